@@ -31,6 +31,12 @@ static Case gen_case() {
   } else {
     c.h = gen_add_history(size * 2);
   }
+  if (chance(4)) {
+    // the writer starts far into a sparse file: offsets beyond 2^31 and 2^32
+    c.h.cfg.sparse_off = one_of<unsigned long long>({(1ull << 31) - 100, (1ull << 31) + 5, 3ull << 30, (1ull << 32) + 4096});
+    c.h.cfg.prefix_len = 0;
+    c.h.cfg.by_path = false;
+  }
   return c;
 }
 
@@ -43,10 +49,18 @@ static Result run_case(const Case &c) {
       r.failf("writer could not be created");
       return;
     }
-    bytes img = fd_contents(fd);
+    bytes img = c.h.cfg.sparse_off ? fd_tail(fd, c.h.cfg.sparse_off) : fd_contents(fd);
+    if (c.h.cfg.sparse_off) {
+      // the hole before the table must still read as zeros (sampled) and the file must not have shrunk
+      char probe[64];
+      for (unsigned long long o2 : {0ull, c.h.cfg.sparse_off / 2, c.h.cfg.sparse_off - 64})
+        if (pread(fd, probe, sizeof probe, (off_t)o2) != (ssize_t)sizeof probe || std::string(probe, sizeof probe) != std::string(sizeof probe, '\0'))
+          r.failf("bytes before the table (sparse hole) were modified near offset %llu", o2);
+      r.tag("sparse_offset_ge_2GiB");
+    }
     close(fd);
     ref::DFile df;
-    std::string e = validate_written_file(img, c.h.cfg, content, &df, &r);
+    std::string e = validate_written_file(img, c.h.cfg, content, &df, &r, c.h.cfg.sparse_off);
     r.counters["programs"] = 1;
     r.counters["blocks_validated"] = (long long)df.data.size() + 1;
     if (!e.empty()) r.failf("%s", e.c_str());
